@@ -167,3 +167,85 @@ func constFitsRule(w *World, r *Result, only func(rel string) bool) int {
 	}
 	return n
 }
+
+// litValueRule (LIT-VALUE): the Value field of an *ast.BasicLit is the literal as written in the source, quotes and
+// escape sequences included. Its value is what strconv.Unquote / strconv.Parse* / constant.MakeFromLiteral (or the type
+// checker) compute from it. A function that derives a string from the raw text by other means (trimming the quotes,
+// slicing off the first and last byte) returns "a\tb" with a backslash and a t, and leaves escaped quotes escaped.
+func litValueRule(w *World, r *Result, only func(rel string) bool) int {
+	n := 0
+	decoders := map[string]bool{"strconv.Unquote": true, "strconv.UnquoteChar": true, "strconv.Atoi": true, "strconv.ParseInt": true, "strconv.ParseUint": true, "strconv.ParseFloat": true, "strconv.ParseBool": true, "go/constant.MakeFromLiteral": true}
+	for _, fi := range sortedFuncs(w) {
+		rel := w.Rel(fi.Obj.Pkg())
+		if fi.Decl.Body == nil || (only != nil && !only(rel)) {
+			continue
+		}
+		info := fi.Pkg.TypesInfo
+		parent := map[ast.Node]ast.Node{}
+		var stack []ast.Node
+		ast.Inspect(fi.Decl.Body, func(x ast.Node) bool {
+			if x == nil {
+				stack = stack[:len(stack)-1]
+				return false
+			}
+			if len(stack) > 0 {
+				parent[x] = stack[len(stack)-1]
+			}
+			stack = append(stack, x)
+			return true
+		})
+		ast.Inspect(fi.Decl.Body, func(x ast.Node) bool {
+			sel, ok := x.(*ast.SelectorExpr)
+			if !ok || sel.Sel.Name != "Value" {
+				return true
+			}
+			f, ok := info.Uses[sel.Sel].(*types.Var)
+			if !ok || !f.IsField() || f.Pkg() == nil || f.Pkg().Path() != "go/ast" {
+				return true
+			}
+			if t := info.TypeOf(sel.X); t == nil || !strings.HasSuffix(t.String(), "go/ast.BasicLit") {
+				return true
+			}
+			n++
+			cons := normLocals(info, sel)
+			pos := w.Pos(sel.Pos())
+			p := parent[sel]
+			for {
+				if pe, ok := p.(*ast.ParenExpr); ok {
+					p = parent[pe]
+					continue
+				}
+				break
+			}
+			switch v := p.(type) {
+			case *ast.CallExpr:
+				full := fullName(calleeOf(info, v))
+				if decoders[full] {
+					r.ok("LIT-VALUE", fi.Name, cons, pos, "the raw literal is decoded by "+full, true)
+					return true
+				}
+				if strings.HasPrefix(full, "fmt.") || strings.HasPrefix(full, "log.") || strings.HasPrefix(full, "errors.") {
+					r.ok("LIT-VALUE", fi.Name, cons, pos, "the raw literal is printed (a message), not interpreted", true)
+					return true
+				}
+				if isBuiltinCall(info, v, "len") {
+					r.ok("LIT-VALUE", fi.Name, cons, pos, "only the length of the source text is used", true)
+					return true
+				}
+				r.bad("LIT-VALUE", fi.Name, cons, pos, "the source text of the literal (quotes and escape sequences included) is handed to "+full+" to obtain its value: only strconv.Unquote / constant.MakeFromLiteral decode escapes (\"a\\tb\", an escaped quote, a raw string containing the other quote) — the string obtained differs from the Go value for every literal that uses one")
+			case *ast.BinaryExpr:
+				if v.Op == token.EQL || v.Op == token.NEQ {
+					r.ok("LIT-VALUE", fi.Name, cons, pos, "compared as source text", true)
+					return true
+				}
+				r.bad("LIT-VALUE", fi.Name, cons, pos, "the source text of the literal is concatenated as if it were its value")
+			case *ast.SliceExpr, *ast.IndexExpr:
+				r.bad("LIT-VALUE", fi.Name, cons, pos, "the source text of the literal is sliced to strip its quotes: escape sequences stay undecoded, so the string differs from the Go value for every literal that uses one")
+			default:
+				r.bad("LIT-VALUE", fi.Name, cons, pos, "the source text of the literal (quotes and escapes included) is used where its value is meant; decode it with strconv.Unquote or constant.MakeFromLiteral")
+			}
+			return true
+		})
+	}
+	return n
+}
